@@ -110,6 +110,33 @@ def make_jobs(chk):
         for ln in (1, 55, 56, 57, 63, 64, 65, 119, 120, 121, 184, 248, 504, 520):
             n += 1
             jobs.append(SessionJob("e%d:hash:%s:%d" % (n, opn, ln), b"\x51\x52\x93", [], [], ("BASE", "TAPSCRIPT")[n % 2], cmds=["step", "exec %s OP_%s" % (bytes((i * 7 + ln) % 256 for i in range(ln)).hex(), opn), "steps"], cmp=CMP))
+    # exec'd operations on the operand boundary set: truth values (negative zero, a last byte 80 after non-zero bytes, long zero strings),
+    # numbers at the one- / two- / four-byte boundaries and of both signs; with -z the re-enabled opcodes (negative odd numbers, shifts, strings)
+    truth = ["80", "0080", "000080", "c780", "0180", "ff80", "010080", "00", "0000", "81", "01", "8000", "0000000000", "00000000000080", "0000000001", "409c80"]
+    for v in truth:
+        for opn in ("VERIFY", "IF 7 OP_ELSE 8 OP_ENDIF", "NOTIF 7 OP_ELSE 8 OP_ENDIF", "IFDUP", "NOT", "0NOTEQUAL", "BOOLAND", "BOOLOR", "SIZE"):
+            for sv, fl in (("BASE", []), ("WITNESS_V0", []), ("TAPSCRIPT", [])):
+                n += 1
+                pre = "OP_1 " if opn.startswith("BOOL") else ""
+                jobs.append(SessionJob("e%d:truth:%s" % (n, sv), b"\x51\x52\x93", [], fl, sv, cmds=["step", "exec %s%s OP_%s" % (pre, v, opn), "steps"], cmp=CMP))
+    nums = [-3, -1, 0, 1, 2, 3, 7, -7, 127, 128, -127, -128, -129, 255, 256, -255, -256, 32767, -32768, 65535, 8388607, -8388608, 2147483647, -2147483647, 1073741823, -1073741825]
+    for a in nums:
+        for opn in ("2MUL", "2DIV", "NEGATE", "ABS", "1ADD", "1SUB"):
+            n += 1
+            jobs.append(SessionJob("e%d:z1:%s" % (n, opn), b"\x51\x52\x93", [], [], ("BASE", "TAPSCRIPT")[n % 2], z=True, cmds=["step", "exec %d OP_%s" % (a, opn), "steps"], cmp=CMP))
+        for b in (-3, -1, 0, 1, 2, 5, 63, 64):
+            for opn in ("MUL", "DIV", "MOD", "LSHIFT", "RSHIFT"):
+                if (a in (-3, 7, -7, 128, -129, 32767, 2147483647, -2147483647, 1073741823)) or b in (0, 64):
+                    n += 1
+                    jobs.append(SessionJob("e%d:z2:%s" % (n, opn), b"\x51\x52\x93", [], [], ("BASE", "TAPSCRIPT")[n % 2], z=True, cmds=["step", "exec %d %d OP_%s" % (a, b, opn), "steps"], cmp=CMP))
+    for x, y in (("aabb", "ccdd"), ("", "01"), ("ff00", "0ff0"), ("11" * 260, "22" * 260), ("11" * 260, "22" * 261), ("80", "80")):
+        for opn in ("CAT", "AND", "OR", "XOR"):
+            n += 1
+            jobs.append(SessionJob("e%d:zs:%s" % (n, opn), b"\x51\x52\x93", [], [], "BASE", z=True, cmds=["step", "exec %s %s OP_%s" % (x or "OP_0", y or "OP_0", opn), "steps"], cmp=CMP))
+        for opn, extra in (("LEFT", "1"), ("RIGHT", "1"), ("LEFT", "0"), ("RIGHT", "0"), ("LEFT", "3"), ("SUBSTR", "1 1"), ("SUBSTR", "0 2"), ("SUBSTR", "2 1"), ("SUBSTR", "1 2"), ("INVERT", "")):
+            n += 1
+            jobs.append(SessionJob("e%d:zs:%s" % (n, opn), b"\x51\x52\x93", [], [], "TAPSCRIPT" if n % 3 == 0 else "BASE", z=True,
+                                   cmds=["step", ("exec %s %s OP_%s" % (x or "OP_0", extra, opn)).replace("  ", " "), "steps"], cmp=CMP))
     # op-count budget shared between script and exec: near the limit
     base = b"\x51" + bytes([O["NOP"]]) * 150
     for extra in (49, 50, 51, 52):
